@@ -141,10 +141,10 @@ def split_arms(text, fns):
     arm_lines = []
     for q in fns:
         short = q.split("::")[-1]
-        start = next((i for i, l in enumerate(lines) if re.search(r"\bfn\s+" + re.escape(short) + r"\(&mut self", l) and not l.rstrip().endswith(";")), None)
+        start = next((i for i, l in enumerate(lines) if re.search(r"^\s*(pub(\([a-z]+\))?\s+)?fn\s+" + re.escape(short) + r"\s*[(<]", l) and not l.rstrip().endswith(";") and "proof fn" not in l), None)
         if start is None:
             raise E.Undecided("lost-anchor", f"split_arms: function {q} not found")
-        mi = next((i for i in range(start, len(lines)) if lines[i].strip() == "match self {"), None)
+        mi = next((i for i in range(start, len(lines)) if re.match(r"^\s*match \w+ \{$", lines[i])), None)
         if mi is None:
             raise E.Undecided("lost-anchor", f"split_arms: no `match self` in {q}")
         ind = len(lines[mi]) - len(lines[mi].lstrip()) + 4
